@@ -20,6 +20,7 @@ type Profile struct {
 	SlowCB    bool // slow lifecycle callbacks
 	Coincide  bool // coincidence mode: equal timeouts so that expiries collide (C15/C18)
 	LongAlloc bool // allocation lifetime 2 h so that permission/channel horizons are not cut short (C07)
+	OddSometimes bool // draw per case whether the odd Allocate options are used
 	Fragments []string // structured fragments mixed into the random steps: perm, chan, alloc
 }
 
@@ -239,6 +240,11 @@ func genStep(rt *rapid.T, p *Profile, cfg *Config, i int) Step { //nolint:cyclop
 
 // GenScript draws a whole script for profile p.
 func GenScript(rt *rapid.T, p *Profile) *Script {
+	if p.OddSometimes {
+		pp := *p
+		pp.Odd = rapid.IntRange(0, 2).Draw(rt, "oddCase") == 0
+		p = &pp
+	}
 	sc := &Script{Cfg: genConfig(rt, p)}
 	minS, maxS := p.MinSteps, p.MaxSteps
 	if minS <= 0 {
